@@ -84,4 +84,29 @@ CHECKS = {
         technique='TLA+ spec (Bridge.tla ParamWalk/TaxOf) + TLC exhaustive update sequences over boundary values + TLC trace validation of real-app histories',
         text='TLC checks rate < 10000, minimum deposit >= dust and confirmations >= 1 after every sequence of updates over boundary values from boundary initial sets, and that no credited deposit has tax >= value or amount 0; the same boundary values are sent to the real application as execution-layer request lists and the stored parameters and resulting deposit amounts are compared.',
         note=TRUSTED + "; hash collisions excluded; votes genuine unless built otherwise."),
+    "C06": dict(
+        level="model_checking",
+        technique='TLA+ spec (Handover.tla queues/DueList/AfterDelivery) + TLC exhaustive bounded model with failing blocks, abandoned rounds, engine faults and crashes + TLC trace validation of whole-application histories through the real ABCI surface',
+        text='MC_Handover checks handed-is-prefix-of-enqueued, nothing dropped, no duplicates, nonces = counts, caps and only-commit-changes-state over all interleavings within bounds; real histories (real Prepare/Process/Finalize/Commit, real mempool, over-filled queues, faulty proposals, abandoned rounds, crashes) are validated block by block: decoded system transactions = due prefix, consecutive nonces, committed queues only grow at the tail.',
+        note=TRUSTED),
+    "C07": dict(
+        level="model_checking",
+        technique='TLA+ trace spec (Trace_Handover exec events: (previous app hash, block) -> result must be single-valued) + replicas and re-execution of every block of real histories',
+        text='Every block is executed on two replicas and re-executed after dropping the uncommitted application; TLC rejects any second, different (app hash, codes, gas, update set, engine calls) for the same (state, block); histories deliberately contain order-sensitive failing batches.',
+        note=TRUSTED),
+    "C08": dict(
+        level="model_checking",
+        technique='TLA+ spec (Handover.tla ProcessAccepts / BlockMsgChecks) + TLC trace validation of real PrepareProposal outputs and 24 concretely built proposal mutations; Go race detector run of the same driver for the data-race clause',
+        text='The acceptance predicate of proposals is specified over observable facts of the proposal and the committed state; real PrepareProposal outputs must be accepted by proposer and replica, stay within 16 transactions and their block message must succeed; every mutation kind is built concretely and must be rejected; the drivers also run under the race detector (a report in repository code is a violation of the race clause).',
+        note=TRUSTED),
+    "C09": dict(
+        level="model_checking",
+        technique='TLA+ spec (Handover.tla head/beacon/engine-log rules, EndEngineOk) + TLC exhaustive bounded model + TLC trace validation of fault-injection histories with crash, restart, retry and a fault-free replica',
+        text="TLC checks head-advances-by-children-only and only-commit-changes-state in the bounded model; real histories with every fault kind at every engine call site are validated: FinalizeBlock fails exactly on error / INVALID / timeout at the end-of-block calls, nothing of a failed block persists, the engine is told exactly (head, safe = finalized = parent), and the retried block equals the fault-free replica's result.",
+        note=TRUSTED),
+    "C10": dict(
+        level="model_checking",
+        technique='TLA+ spec (Ante.tla decision table) + TLC exhaustive case table + replay of every case as a real signed transaction through every execution mode + TLC trace validation',
+        text="The admission table is enumerated completely and the statement of C10 is checked on it; every row is executed against the real application (registered message types enumerated at run time) and the admitted / refused verdict and the 'refused changes nothing' app-hash comparison are validated by TLC.",
+        note=TRUSTED),
 }
